@@ -6,7 +6,10 @@ exhaustively by TLC.  Binding: every call history up to a bound is replayed on t
 (RecordWriter(url) per kind; split:// over several targets; PathTemplateWriter with a fake clock and
 pre-created files); after every closing call the files are read with the library's reader and with an
 independent reader of the container format; TLC validates the recorded traces (contract = verdict,
-design = drift).
+design = drift).  A fourth part covers the one writer without a file, the Splunk forwarder (spec/Splunk.tla):
+the real SplunkWriter runs against recording stand-ins for its socket / HTTP client along bounded-exhaustive,
+long and TLC-simulated histories (collector errors included); "once closed, every record written is out" is
+the verdict, body boundaries and the rendering of names are drift.
 """
 import csv, glob, gzip, bz2, io, itertools, json, os, re, sqlite3, datetime as dt
 
